@@ -113,8 +113,10 @@ func (h *Session) findOrCreateHostWithLock(addr Addr) (host *Host, found bool) {
 	//optimise the common path
 	h.mutex.RLock()
 	if host, found = h.HostTable.Table[addr.IP]; found && bytes.Equal(host.MACEntry.MAC, addr.MAC) {
+		host.MACEntry.Row.Lock() // LastSeen is read by purge under the row lock
 		host.LastSeen = now
 		host.MACEntry.LastSeen = now
+		host.MACEntry.Row.Unlock()
 		h.mutex.RUnlock()
 		return host, true
 	}
